@@ -52,7 +52,9 @@ def run_demo(wt, demo_path):
     dst = os.path.join(wt, d, "zz_seed_demo_test.go")
     shutil.copy(demo_path, dst)
     try:
-        rc, out = sh(["go", "test", "-vet=off", "-count=1", "-run", "TestDemo", "."], cwd=os.path.join(wt, d), timeout=900)
+        # SEED_DEMO_ENV="GOARCH=386": the configuration the demo needs (recorded in meta.json as demo_env)
+        envs = " ".join(os.environ.get("SEED_DEMO_ENV", "").split())
+        rc, out = sh("%s go test -vet=off -count=1 -run TestDemo ." % envs, cwd=os.path.join(wt, d), timeout=900)
     finally:
         os.remove(dst)
     return rc, out
@@ -100,6 +102,8 @@ def validate(cand, sid, prop):
                               "how": "scratch worktree of /repo HEAD: demo passes; git apply patch.diff; go build ./... && "
                                      "go test -vet=off -count=1 ./... passes; demo fails; worktree removed"},
                 "demo_dir": demo_target(os.path.join(cand, "demo_test.go")), "detection": {}}
+        if os.environ.get("SEED_DEMO_ENV"):
+            meta["demo_env"] = os.environ["SEED_DEMO_ENV"]
         mp = os.path.join(d, "meta.json")
         if os.path.exists(mp):
             old = json.load(open(mp))
